@@ -132,10 +132,6 @@ def encLazy (m : Mem) (det : MLayer → Bool) : SExp :=
 
 /-! ### operations -/
 
-def markLoaded {α} (old : String → Option α) (names : List String) (l : List (String × Option α)) :
-    List (String × Option α) :=
-  l.map fun p => if p.1 ∈ names ∧ p.2.isNone then (p.1, old p.1) else p
-
 def setAL {α} (l : List (String × Option α)) (n : String) (v : Option (Option α)) : List (String × Option α) :=
   match v with
   | none => AL.erase l n
@@ -147,8 +143,10 @@ def withMem (s : DState) (f : Mem → DState × SExp) : DState × SExp :=
   | some m => f m
 
 def fullyLoaded (m : Mem) (c : Full) : Mem :=
-  { m with layers := c.layers.map (fun l => ⟨l.name, loaded l.glyphs, l.info⟩), images := loaded c.images,
-           data := loaded c.data }
+  { m with layers := m.layers.map (fun l => match c.layers.find? (fun x => x.name = l.name) with
+                                              | some x => { l with glyphs := loaded x.glyphs }
+                                              | none => l),
+           images := loaded c.images, data := loaded c.data }
 
 /-! ### the final replace (M-Replace): the UFO at the destination is blob 1, the new one blob 2, a partial
 arrival blob 3 -/
@@ -241,12 +239,7 @@ def driverStep (s : DState) (line : SExp) : DState × SExp :=
   | .list [.atom "preread", gl, im, da] =>
     withMem s fun m =>
       match asListOf? (asPairOf? asStr? asStr?) gl, asListOf? asStr? im, asListOf? asStr? da with
-      | some gl, some im, some da =>
-        let layers := m.layers.map fun l =>
-          { l with glyphs := markLoaded (diskGlyph? m.bound l.name (l.name = m.defaultName))
-                      (gl.filterMap fun p => if p.1 = l.name then some p.2 else none) l.glyphs }
-        ({ mem := some { m with layers := layers, images := markLoaded (diskImage? m.bound) im m.images,
-                                  data := markLoaded (diskData? m.bound) da m.data } }, .atom "ok")
+      | some gl, some im, some da => ({ mem := some (loadItems m gl im da) }, .atom "ok")
       | _, _, _ => (s, .atom "bad-op")
   | .list [.atom "setparts", k, g, lib, info, hint, gl, feat] =>
     withMem s fun m =>
@@ -257,17 +250,30 @@ def driverStep (s : DState) (line : SExp) : DState × SExp :=
   | .list [.atom "gset", ln, gn, a, b] =>
     withMem s fun m =>
       match asStr? ln, asStr? gn, asNat? a, asNat? b with
-      | some ln, some gn, some a, some b =>
-        ({ mem := some { m with layers := m.layers.map fun l =>
-            if l.name = ln then { l with glyphs := AL.set l.glyphs gn (some ⟨a, b⟩) } else l } }, .atom "ok")
+      | some ln, some gn, some a, some b => ({ mem := some (setGlyph m ln gn ⟨a, b⟩) }, .atom "ok")
       | _, _, _, _ => (s, .atom "bad-op")
   | .list [.atom "gdel", ln, gn] =>
     withMem s fun m =>
       match asStr? ln, asStr? gn with
-      | some ln, some gn =>
-        ({ mem := some { m with layers := m.layers.map fun l =>
-            if l.name = ln then { l with glyphs := AL.erase l.glyphs gn } else l } }, .atom "ok")
+      | some ln, some gn => ({ mem := some (delGlyph m ln gn) }, .atom "ok")
       | _, _ => (s, .atom "bad-op")
+  -- the layer set: the answer is the layer order and the default layer afterwards (`(err op)`: rejected)
+  | .list (.atom "layerop" :: args) =>
+    withMem s fun m =>
+      let op : Option LayerOp := match args with
+        | [.atom "rename", o, n] => do some (.rename (← asStr? o) (← asStr? n))
+        | [.atom "new", n] => do some (.new (← asStr? n))
+        | [.atom "delete", n] => do some (.delete (← asStr? n))
+        | [.atom "default", n] => do some (.setDefault (← asStr? n))
+        | [.atom "order", o] => do some (.reorder (← asListOf? asStr? o))
+        | [.atom "info", n, b] => do some (.setInfo (← asStr? n) (← asNat? b))
+        | _ => none
+      match op with
+      | none => (s, .atom "bad-op")
+      | some op =>
+        match applyLayerOp m op with
+        | none => (s, err "layerop")
+        | some m' => ({ mem := some m' }, tagged "ok" [ofList .str (layerNames m'), .str m'.defaultName])
   | .list [.atom "save", t, ip] =>
     withMem s fun m =>
       match asFmt? t, asBool? ip with
